@@ -353,9 +353,6 @@ func (c *fileCtx) yieldText(pos token.Pos, kind string) string {
 // the "store" kind, which the store-biased schedule source concentrates on: logic
 // bugs around correctly synchronised state need preemptions exactly there.
 func (c *fileCtx) hotStmt(st ast.Stmt) bool {
-	if c.info == nil {
-		return false
-	}
 	var exprs []ast.Expr
 	switch n := st.(type) {
 	case *ast.ExprStmt:
@@ -395,6 +392,14 @@ func (c *fileCtx) hotStmt(st ast.Stmt) bool {
 				return false
 			case *ast.CallExpr:
 				if sel, ok := y.Fun.(*ast.SelectorExpr); ok {
+					if c.info == nil {
+						// syntactic mode (cgo package): by method name
+						switch sel.Sel.Name {
+						case "Lock", "Unlock", "RLock", "RUnlock", "TryLock", "TryRLock":
+							hot = true
+						}
+						return !hot
+					}
 					if obj := c.info.Uses[sel.Sel]; obj != nil && obj.Pkg() != nil {
 						switch obj.Pkg().Path() {
 						case "sync/atomic", "sync":
